@@ -20,6 +20,7 @@ import calendar
 import hashlib
 import mailbox as stdmailbox
 import os
+import random
 import re
 
 from gen import corpus
@@ -198,6 +199,8 @@ class Interp:
         self.unanswered = []  # UID FETCH requests for a known message that returned nothing for it
         self.selfcopied = set()  # UIDVALIDITYs of mailboxes that were the destination of their own COPY/MOVE
         self.tag_taint = False
+        self.probe_p = float(self.prog.get("probe_p", 1.0))
+        self.probe_rng = random.Random(int(self.prog.get("seed", 0)) ^ 0x0B5E)
         self.uidexp_only = bool(self.prog.get("uidexpunge_only"))  # family in which UID EXPUNGE <set> is the only way messages go away
         self.uidexp_allowed = {}  # (name, uvv) -> UIDs named by some UID EXPUNGE
         self.seen_uids = {}  # (name, uvv) -> UIDs some session was shown
@@ -862,6 +865,14 @@ class Interp:
     async def after_mutation(self, boxes, why):
         if not self.compare:
             return
+        if self.probe_p < 1.0:
+            # sparse probing: the read-only observer is itself a client of the server (its EXAMINE
+            # makes the mailbox resync, its FETCH produces notifications) and has masked defects
+            # (F49/F50). Here it looks only now and then; the model carries on regardless and the
+            # final probe still compares everything.
+            if self.probe_rng.random() >= self.probe_p:
+                return
+            why = why.replace("-refused", "").replace("-readonly", "")  # no per-op blame across skipped probes
         seen = set()
         if why.endswith("-refused"):
             self.blame = ("C05", "refused_command_had_effect")
@@ -1525,7 +1536,10 @@ class Interp:
             self.apply_expunge(box, dele)
             self.others_changed(box, sess.sid)
         await self.after_mutation([box], "expunge")
-        self.check_flush(sess, ms, box, "EXPUNGE")
+        if not ms.readonly:
+            # (the property names NOOP/CHECK/IDLE as flush points; a read-write EXPUNGE goes through the
+            # same resync + flush, an EXPUNGE from an EXAMINE session is refused/no-op without either)
+            self.check_flush(sess, ms, box, "EXPUNGE")
 
     async def op_close(self, op):
         sess, ms = self.sess(op)
@@ -1753,6 +1767,11 @@ class Interp:
         self.check_prompt(sess, r, "IDLE/DONE")
         if r.ok and box is not None and self.compare:
             await self.after_mutation([box], "done")
+            # Ending an IDLE flushes what the server knows; unlike NOOP it does not look at the folder.
+            # A delivery younger than the idle poll period (1-5 s) need not have been found yet.
+            now = self.loop.time()
+            if any(m.uid is None and m.born is not None and now - m.born < 7.0 for m in box.msgs):
+                return
             self.check_delivery_announced(sess, ms, box, "DONE")
             self.check_flush(sess, ms, box, "IDLE")
 
@@ -2533,7 +2552,7 @@ class Pop3Ops:
             if any(b <= a for a, b in zip(us, us[1:])):
                 self.V("C20", "pop3_uidl_not_imap_uid", why="not ascending", uids=us)
             for n, uid in pairs.items():
-                if uid not in box.ledger and box.by_uid(uid) is None and uid <= box.max_uid and not box.uncertain and box.uidnext_told and uid >= box.uidnext_told:
+                if self.probe_p >= 1.0 and uid not in box.ledger and box.by_uid(uid) is None and uid <= box.max_uid and not box.uncertain and box.uidnext_told and uid >= box.uidnext_told:
                     self.V("C20", "pop3_uidl_not_imap_uid", n=n, uid=uid, known=sorted(box.ledger)[:20])
             return
         if st["uidl"] is None:
